@@ -357,9 +357,11 @@ class Parser:
                 else:
                     if n < len(mac.defaults):
                         # NB: do not use positions from macro definition
+                        # - use the position of the macro: the next token
+                        #   possibly does not belong to the macro any more
                         arg = [copy.copy(t) for t in mac.defaults[n]]
                         for t in arg:
-                            t.pos = pos
+                            t.pos = start
                             t.pos_fix = True
             elif code == 'A':
                 if tok and tok.txt == '}':
